@@ -199,3 +199,93 @@ pub fn stop_then_reset_credit_native(buffered: u8, extra: u8) -> u32 {
     assert!(credit == 1000, "connection-level credit after stop + reset is {} for a 1000-byte window (was {} before the stop)", credit, window0);
     1
 }
+
+/// Native replay body for the E2 query `e2_received_stop_sending` (C11): STOP_SENDING for a stream in
+/// each sending state.  `Stopped` is reported once per stopped stream - with the peer's code - and a
+/// repeated frame, a frame for a stream that already finished its data or was reset, or one for a stream
+/// that does not exist, reports nothing; afterwards write() reports the peer's code.
+pub fn stop_sending_native(state: u8) -> u32 {
+    use super::state::verif::{mk_streams, Scalars};
+    let mut st = mk_streams(&Scalars { max: [10, 10], max_data: 1 << 20, send_window: 1 << 20, ..Default::default() });
+    let mut pending = Retransmits::default();
+    let conn_state = crate::connection::State::Established;
+    let id = {
+        let mut s = Streams { state: &mut st, conn_state: &conn_state };
+        s.open(Dir::Uni).expect("stream credit available")
+    };
+    st.send.get_mut(&id).map(get_or_insert_send(VarInt::from_u32(1 << 16)));
+    let stopped_events = |st: &mut StreamsState| {
+        let mut n = Vec::new();
+        while let Some(e) = st.poll() {
+            if let StreamEvent::Stopped { id, error_code } = e {
+                n.push((id, error_code));
+            }
+        }
+        n
+    };
+    {
+        let mut ss = SendStream { id, state: &mut st, pending: &mut pending, conn_state: &conn_state };
+        assert!(ss.write(&[7u8; 10]).unwrap_or(0) == 10);
+        match state {
+            1 => ss.finish().expect("finish succeeds"),
+            2 => ss.reset(VarInt::from_u32(3)).expect("reset succeeds"),
+            _ => {}
+        }
+    }
+    let _ = stopped_events(&mut st);
+    let code = VarInt::from_u32(77);
+    if state == 3 {
+        // a stream that was never opened
+        st.received_stop_sending(StreamId::new(crate::Side::Client, Dir::Bi, 9), code);
+        assert!(stopped_events(&mut st).is_empty(), "Stopped reported for a stream that does not exist");
+        return 8;
+    }
+    st.received_stop_sending(id, code);
+    let ev = stopped_events(&mut st);
+    assert!(ev == vec![(id, code)], "Stopped must be reported exactly once, for this stream, with the peer's code");
+    st.received_stop_sending(id, VarInt::from_u32(78));
+    assert!(stopped_events(&mut st).is_empty(), "Stopped reported a second time for the same stream");
+    if state == 0 {
+        let mut ss = SendStream { id, state: &mut st, pending: &mut pending, conn_state: &conn_state };
+        assert!(matches!(ss.write(&[1u8; 4]), Err(WriteError::Stopped(c)) if c == code), "write after STOP_SENDING must report the peer's code");
+    }
+    1 << state
+}
+
+/// Native replay body for the E2 query `e2_reset_acked` (C11): the acknowledgement of a RESET_STREAM
+/// frees the sending half exactly when that half is in state ResetSent (a stale acknowledgement for a
+/// stream id that is open again / still sending must not remove it).
+pub fn reset_acked_native(reset: bool) -> u32 {
+    use super::state::verif::{mk_streams, Scalars};
+    let mut st = mk_streams(&Scalars { max: [10, 10], max_data: 1 << 20, send_window: 1 << 20, ..Default::default() });
+    let mut pending = Retransmits::default();
+    let conn_state = crate::connection::State::Established;
+    let id = {
+        let mut s = Streams { state: &mut st, conn_state: &conn_state };
+        s.open(Dir::Uni).expect("stream credit available")
+    };
+    st.send.get_mut(&id).map(get_or_insert_send(VarInt::from_u32(1 << 16)));
+    {
+        let mut ss = SendStream { id, state: &mut st, pending: &mut pending, conn_state: &conn_state };
+        assert!(ss.write(&[7u8; 10]).unwrap_or(0) == 10);
+        if reset {
+            ss.reset(VarInt::from_u32(3)).expect("reset succeeds");
+        }
+    }
+    let streams_before = st.send_streams;
+    st.reset_acked(id);
+    if reset {
+        assert!(!st.send.contains_key(&id), "an acknowledged reset did not free the sending half");
+        assert!(st.send_streams == streams_before - 1, "the freed stream still counts as open");
+        // and only once
+        st.reset_acked(id);
+        assert!(st.send_streams == streams_before - 1, "a repeated acknowledgement freed the stream twice");
+        1
+    } else {
+        assert!(st.send.contains_key(&id), "a stream that was not reset was removed by a RESET_STREAM acknowledgement");
+        assert!(st.send_streams == streams_before);
+        let mut ss = SendStream { id, state: &mut st, pending: &mut pending, conn_state: &conn_state };
+        assert!(ss.write(&[1u8; 4]).is_ok(), "the stream must still be writable");
+        2
+    }
+}
